@@ -32,7 +32,10 @@ type SysOpts struct {
 	BoltSync     bool // keep fsync on (C15)
 	FreshMeta    bool // single-bucket systems: a restart comes back with an empty in-memory metadata store (the default
 	// configuration of the directfs backend), so every object is met without a metadata record
-	Skew bool // keep the default time-skew limit (requests carrying a far-off x-amz-date are refused)
+	Skew       bool // keep the default time-skew limit (requests carrying a far-off x-amz-date are refused)
+	FixedClock bool // every time source (front end, s3mem, s3bolt) is a clock that stands still (all timestamps equal)
+	NegSeed    bool // s3mem built with a negative version seed (s3mem.WithVersionSeed)
+	MetaFs     bool // multi-bucket fs backend built with its metadata on a separate file system (MultiWithMetaFs)
 	// Wrap, when set, interposes on the Backend the front end is built on
 	// (schedule gates at backend-call granularity, C07).
 	Wrap func(gofakes3.Backend) gofakes3.Backend `json:"-"`
@@ -53,6 +56,8 @@ type System struct {
 
 // SingleBucketName is the bucket the single-bucket backends serve.
 const SingleBucketName = "bkt1"
+
+var fixedInstant = time.Date(2020, 2, 29, 23, 59, 59, 0, time.UTC)
 
 var tmpRoot string
 var tmpSeq int64
@@ -118,7 +123,16 @@ func (s *System) open(fresh bool) error {
 	var err error
 	switch s.Name {
 	case "mem":
-		s.Backend = s3mem.New()
+		var mo []s3mem.Option
+		if s.Opts.FixedClock {
+			mo = append(mo, s3mem.WithTimeSource(gofakes3.FixedTimeSource(fixedInstant)))
+		}
+		if s.Opts.NegSeed {
+			mo = append(mo, s3mem.WithVersionSeed(-20181231))
+		} else if s.Opts.FixedClock {
+			mo = append(mo, s3mem.WithVersionSeed(7))
+		}
+		s.Backend = s3mem.New(mo...)
 	case "bolt":
 		if fresh {
 			s.dir = newDir()
@@ -141,12 +155,21 @@ func (s *System) open(fresh bool) error {
 		}
 		db.NoSync = true
 		s.boltDB = db
-		s.Backend = s3bolt.New(db)
+		if s.Opts.FixedClock {
+			s.Backend = s3bolt.New(db, s3bolt.WithTimeSource(gofakes3.FixedTimeSource(fixedInstant)))
+		} else {
+			s.Backend = s3bolt.New(db)
+		}
 	case "multimem":
 		if fresh {
 			s.baseFs = afero.NewMemMapFs()
+			s.metaFs = afero.NewMemMapFs()
 		}
-		s.Backend, err = s3afero.MultiBucket(s.baseFs)
+		if s.Opts.MetaFs {
+			s.Backend, err = s3afero.MultiBucket(s.baseFs, s3afero.MultiWithMetaFs(s.metaFs))
+		} else {
+			s.Backend, err = s3afero.MultiBucket(s.baseFs)
+		}
 	case "multios":
 		if fresh {
 			s.dir = newDir()
@@ -199,6 +222,9 @@ func (s *System) open(fresh bool) error {
 	}
 	if !o.Skew {
 		opts = append(opts, gofakes3.WithTimeSkewLimit(0))
+	}
+	if o.FixedClock {
+		opts = append(opts, gofakes3.WithTimeSource(gofakes3.FixedTimeSource(fixedInstant)))
 	}
 	if o.Wrap != nil {
 		s.Backend = o.Wrap(s.Backend)
